@@ -111,7 +111,10 @@ class Underlying(abc.ABC):
         :return: a function that will take the times, the path and the payoff underlying value and return the
                  underlying value from the relevant quantities
         """
-        if isinstance(self, payoff_underlying_type):
+        # the value of the payoff underlying can only stand for this one when the class has no parameter of its own (two
+        # underlyings of the same class may differ by their index, thresholds, initial spots, discretisation...)
+        has_own_parameters = any(name != "value" for name in vars(self))
+        if isinstance(self, payoff_underlying_type) and not has_own_parameters:
             return lambda times, path, jump_path, payoff_underlying: payoff_underlying
 
         return self.value
